@@ -29,6 +29,7 @@ type cmdRec struct {
 type dialogCase struct {
 	Service       string   `json:"service"`
 	UDP           bool     `json:"udp"`
+	SameSource    bool     `json:"same_source,omitempty"`
 	PayloadByRead bool     `json:"payload_by_read"`
 	Cmds          []cmdRec `json:"cmds"`
 	Mode          string   `json:"mode"` // single | lockstep | cuts | dribble
@@ -36,7 +37,7 @@ type dialogCase struct {
 }
 
 func toCase(d svc.Dialog, mode string, cuts []int) dialogCase {
-	c := dialogCase{Service: d.Service, UDP: d.UDP, PayloadByRead: d.PayloadByRead, Mode: mode, Cuts: cuts}
+	c := dialogCase{Service: d.Service, UDP: d.UDP, SameSource: d.SameSource, PayloadByRead: d.PayloadByRead, Mode: mode, Cuts: cuts}
 	for _, x := range d.Cmds {
 		c.Cmds = append(c.Cmds, cmdRec{x.Name, vlib.Hex(x.Wire), x.Exp, x.Ends})
 	}
@@ -44,7 +45,7 @@ func toCase(d svc.Dialog, mode string, cuts []int) dialogCase {
 }
 
 func (c dialogCase) dialog() svc.Dialog {
-	d := svc.Dialog{Service: c.Service, UDP: c.UDP, PayloadByRead: c.PayloadByRead}
+	d := svc.Dialog{Service: c.Service, UDP: c.UDP, SameSource: c.SameSource, PayloadByRead: c.PayloadByRead}
 	for _, x := range c.Cmds {
 		d.Cmds = append(d.Cmds, svc.Cmd{Name: x.Name, Wire: vlib.UnHex(x.Wire), Exp: x.Exp, Ends: x.Ends})
 	}
@@ -270,10 +271,26 @@ func checkUDP(c dialogCase) error {
 		return fmt.Errorf("infra: %v", err)
 	}
 	d := c.dialog()
+	var srcIP net.IP
+	var srcPort int
+	if d.SameSource {
+		srcIP, srcPort = svc.NextClient()
+	}
+	seen := 0
 	for i, cmd := range d.Cmds {
-		sc := &svc.Script{Service: d.Service, UDP: true, Steps: []svc.Step{{Data: cmd.Wire}}}
-		in.RunOne(sc, 0)
-		want := len(cmd.Exp)
+		sc := &svc.Script{Service: d.Service, UDP: true, Steps: []svc.Step{{Data: cmd.Wire}}, SrcIP: srcIP, SrcPort: srcPort}
+		se, _ := in.RunOne(sc, 0)
+		if d.SameSource {
+			// lock-step like a real client: wait for the reply to this datagram
+			deadline := time.Now().Add(5 * time.Second)
+			for len(se.Dgrams[0].Snapshot()) == 0 && time.Now().Before(deadline) {
+				time.Sleep(200 * time.Microsecond)
+			}
+			if len(se.Dgrams[0].Snapshot()) == 0 {
+				return fmt.Errorf("[%s datagram %d %s] no reply to a datagram of an orderly transfer", d.Service, i, cmd.Name)
+			}
+		}
+		want := seen + len(cmd.Exp)
 		in.Cap.WaitFor(3*time.Second, func(all []lab.Ev) bool {
 			return len(tracked(d.Service, lab.From(all, sc.SrcIP.String(), sc.SrcPort))) >= want
 		})
@@ -283,6 +300,18 @@ func checkUDP(c dialogCase) error {
 			if e.SerErr != "" {
 				return fmt.Errorf("event does not serialise: %s", e.SerErr)
 			}
+		}
+		if d.SameSource {
+			// events of the shared source accumulate: compare the new ones
+			tr := tracked(d.Service, evs)
+			if len(tr) < seen {
+				return fmt.Errorf("[%s datagram %d] events disappeared", d.Service, i)
+			}
+			if err := svc.Compare(cmd.Exp, tr[seen:]); err != nil {
+				return fmt.Errorf("[%s datagram %d %s of an upload] %v", d.Service, i, cmd.Name, err)
+			}
+			seen = len(tr)
+			continue
 		}
 		if err := svc.Compare(cmd.Exp, tracked(d.Service, evs)); err != nil {
 			return fmt.Errorf("[%s datagram %d %s] %v", d.Service, i, cmd.Name, err)
@@ -304,6 +333,10 @@ func TestUDP(t *testing.T) {
 	r.Rapid(t, "TestUDP", r.Pick(1000, 20000), func(rt *rapid.T) {
 		service := rapid.SampledFrom(svc.UDPServices).Draw(rt, "service")
 		d := svc.GenUDP(rt, service)
+		if service == "tftp" && rapid.Bool().Draw(rt, "upload") {
+			d = svc.GenTFTPUpload(rt)
+			service = "tftp-upload"
+		}
 		c := toCase(d, "datagram", nil)
 		r.Case("udp/"+service, vlib.JSON(c.Cmds), func() interface{} { return map[string]interface{}{"dialog": d.Summary(), "first_hex": c.Cmds[0].Wire} })
 		if err := checkUDP(c); err != nil {
